@@ -44,7 +44,10 @@ BUDGET = {
     "thorough": {"runs": 150000, "chunk": 2500, "wall": 1500, "chunk_timeout": 900},
 }
 
-_PRE_FILES = {"f1.txt": b"one\n", "d1/f2.txt": b"two\ntwo\n", "d1/d2/f3.txt": b"three"}
+_PRE_FILES = {"f1.txt": b"one\n", "d1/f2.txt": b"two\ntwo\n", "d1/d2/f3.txt": b"three", "d1/data.txt": b"d1-data",
+              "d1/d2/data.txt": b"d2-data"}
+_REL_NAMES = ["data.txt", "out.txt", "f2.txt", "sub", "sub/x.txt"]
+_CWD_DIRS = ["", "d1", "d1/d2", "empty"]
 _PRE_DIRS = ["d1", "d1/d2", "empty"]
 _FRESH = ["n1.txt", "d1/n2.txt", "newdir", "newdir/sub", "newdir/sub/deep", "empty/n3.txt", "d1/d2/n4", "n5"]
 _TARGETS = list(_PRE_FILES) + _PRE_DIRS + _FRESH
@@ -80,8 +83,16 @@ def gen_case(run_seed: int, tier: str) -> dict:
     r = st.get("ops")
     n = r.choice([1, 2, 2, 3, 3, 4, 5, 6, 8, 12])
     ops = []
+    hopping = r.random() < 0.3  # same relative names used from several working directories
     for _ in range(n):
-        if r.random() < 0.3:
+        if hopping:
+            if r.random() < 0.35:
+                ops.append({"op": "chdir", "a": r.choice(_CWD_DIRS), "rel": False})
+            else:
+                ops.append({"op": r.choice(["open_w", "open_a", "write_text", "touch", "os_mkdir", "os_remove",
+                                            "path_unlink", "open_x", "os_open_creat", "makedirs_ok", "rmtree"]),
+                            "a": r.choice(_REL_NAMES), "rel": True})
+        elif r.random() < 0.3:
             ops.append({"op": r.choice(_OPS2), "a": r.choice(_TARGETS), "b": r.choice(_TARGETS),
                         "rel": r.random() < 0.25})
         else:
